@@ -170,7 +170,7 @@ CHECKS = {
         "engines": [
             eng("native-release", "chk-stack", NATIVE_REL, params={"all": {"scale": 2}}),
             eng("native-debugassert", "chk-stack", NATIVE_CHK, params={"all": {"scale": 1}}),
-            eng("tsan", "chk-stack", {"kind": "tsan"}, tiers=["thorough"], params={"thorough": {"scale": 1}}, floor_scale=0.02, timeout=5400),
+            eng("tsan", "chk-stack", {"kind": "tsan"}, tiers=["thorough"], params={"thorough": {"runs": 8000}}, floor_scale=0.1, timeout=5400),
         ],
         "exhaustive": {"quick": False, "thorough": False},
         "trusted_base": ["tokio's scheduler as the source of interleavings", "ThreadSanitizer (thorough tier) for data races in the exercised code"],
